@@ -80,7 +80,12 @@ def run_case(case, ctx, mon):
     p, seed = case["p"], case["seed"]
     m = 1 << p
     pt = case.get("p_type")
-    h = s.HyperLogLog(getattr(np, pt)(p) if pt else p, seed)
+    mk = lambda: s.HyperLogLog(getattr(np, pt)(p) if pt else p, seed)  # noqa: E731
+    h = mk()
+    n_parts = int(case.get("parts", 1))
+    parts = [mk() for _ in range(n_parts)] if n_parts > 1 else None
+    if parts:
+        mon.count("streams_split_over_several_sketches_and_merged")
     thr = float(h.threshold)
     rng = np.random.default_rng(case["stream"])
     pts = grid(p, case["top_mult"], thr, dense=bool(case.get("dense")))
@@ -91,14 +96,23 @@ def run_case(case, ctx, mon):
     regimes = set()
     chunk = 1 << 16
     add = h.add
+    turn = 0
     for target in pts:
         while n < target:
             k = min(chunk, target - n)
             buf = rng.integers(0, 256, k * 8, dtype=np.uint8).tobytes()
+            if parts:
+                # the key set is spread over several sketches (as shards of a stream are); the estimate is read off their merge
+                add = parts[turn % n_parts].add
+                turn += 1
             # make keys distinct by construction: stream id and running index are part of the key
             for i in range(k):
                 add(buf[8 * i: 8 * i + 8] + (n + i).to_bytes(5, "little"))
             n += k
+        if parts:
+            h = mk()
+            for part in parts:
+                mon.api(h.merge, part)
         q = float(h.query())
         zeros = int(m - np.count_nonzero(h.registers))
         if zeros > 0:
@@ -180,7 +194,7 @@ def gen_cases(ctx):
             for _ in range(n_seeds):
                 seed = pick(rng, [0, 1, 2**32, 2**63, 2**64 - 1]) if rng.random() < 0.2 else int(rng.integers(0, 2**63)) * 2 + int(rng.integers(0, 2))
                 yield {"p": p, "seed": seed, "stream": int(rng.integers(0, 2**62)), "top_mult": top,
-                       "p_type": pick(rng, [None, None, "uint8", "int8", "int16", "uint16", "int64"])}
+                       "p_type": pick(rng, [None, None, "uint8", "int8", "int16", "uint16", "int64"]), "parts": pick(rng, [1, 1, 2, 3])}
         rep += 1
         if q:
             return
@@ -202,6 +216,7 @@ def floors(mon, ctx):
     for p in range(7, 17):
         for r in ("linear-counting", "bias-corrected-with-zero-registers", "no-zero-registers"):
             mon.floor(f"regime {r} at p={p}", int(f"p{p}:{r}" in mon.classes["regime"]), 1)
+    mon.floor("streams split over several sketches and merged", mon.counters["streams_split_over_several_sketches_and_merged"], 5)
     mon.floor("envelope evaluations", mon.counters["envelope_evaluations"], 1000)
     mon.floor("small-n evaluations", mon.counters["small_n_evaluations"], 50)
     mon.floor("dense streams (one per precision)", mon.counters["dense_streams"], 10)
